@@ -41,6 +41,22 @@ try:
 except ImportError:
     _NO_MIEANGFUNCS = True
 
+def _reduce_orientation(alpha, beta):
+    """Map Euler angles (degrees) of an axisymmetric particle onto the
+    equivalent orientation with 0 <= alpha < 360 and 0 <= beta <= 180,
+    which is the only range the fortran code accepts.
+    """
+    if not (np.isfinite(alpha) and np.isfinite(beta)):
+        raise ValueError("Tmatrix orientation angles must be finite")
+    beta = np.mod(beta, 360.)
+    if beta > 180.:
+        # same axis direction: (alpha, beta) ~ (alpha + 180, 360 - beta)
+        beta = 360. - beta
+        alpha = alpha + 180.
+    alpha = np.mod(alpha, 360.)
+    return float(alpha), float(beta)
+
+
 class Tmatrix(ScatteringTheory):
     """
     Computes scattering using the axisymmetric T-matrix solution
@@ -108,14 +124,21 @@ class Tmatrix(ScatteringTheory):
         eps = rxy/rz
         NP = -1 - int(iscyl)
         ndgs = 5
-        alpha = scatterer.rotation[2] * 180 / np.pi
-        beta = scatterer.rotation[1] * 180 / np.pi
+        alpha, beta = _reduce_orientation(
+            scatterer.rotation[2] * 180 / np.pi,
+            scatterer.rotation[1] * 180 / np.pi)
 
         # FIXME: Why does the incident polarization have to be set to  (1, 0)?
         thet0 = 0
         thet = angles[:, 0]
         phi0 = 0
-        phi = angles[:, 1]
+        # the fortran code only accepts azimuths in [0, 360]
+        phi = np.mod(angles[:, 1], 360.)
+        if not (np.all(np.isfinite(angles)) and
+                np.all((thet >= 0) & (thet <= 180))):
+            msg = ("Tmatrix scattering angles must be finite, with polar " +
+                   "angles between 0 and pi")
+            raise ValueError(msg)
         nang = angles.shape[0]
 
         args = [axi, rat, lam, mrr, mri, eps, NP, ndgs, alpha, beta,
